@@ -21,7 +21,8 @@ LISTREQ = {
 }
 CANON_STR = ['/etc/a', '/etc/b', '/etc/a/b', '@{bin}/a', '@{bin}/ab', '@{lib}/x', '/zzz', '/zz', '/usr/share/x', '/home/u/.c',
              '@{run}/x', '/dev/null', '/opt/x', '/var/x', '/a', 'foo', 'bar', 'foo-bar', 'a.b', 'org.x.y', 'tcp', 'x',
-             '/tmp/x', '@{tmp}/y', '/dev/shm/z', '/{a,b}', '/a*', '/a**', 'session', 'system', ':1.2']
+             '/tmp/x', '@{tmp}/y', '/dev/shm/z', '/{a,b}', '/a*', '/a**', 'session', 'system', ':1.2',
+             'abstractions/base', 'abstractions/base', 'abstractions/bas', 'abstractions/base-x']
 ODD_STR = ['/Foo', '/foo', '/ETC/a', '@{HOME}/.x', '@{PROC}/1', '/a b', '/a\tb', '/a b c', '@{HOME}/X', '"/q r"',
            'Org.X', 'org.X']
 
